@@ -234,13 +234,14 @@ def stepNS (st : NS) (op impl : String) : NS × StepOut :=
         | _, _, _ => ["unparsable"]
       | _ => ["unparsable"]
     (st, { model := impl, oracle := orc, nontrivial := true })
-  | ["e2t", nameA, nameB, adv] =>
+  | ["e2t", nameA, nameB, adv, c1] =>
     -- the election's own deadline (`CheckSession`, 500 ms): c0 dialled by B is up and ready, A dials
     -- c1, A's NodeServer is not scheduled while the clock advances by `adv` ms. Whatever `adv`: both
     -- nodes must end with one and the same link — the one both full elections keep — and every
     -- session is reported ready at most once.
     let o := nameOrd nameB nameA
-    let cs : List Conn := [⟨false, 1, 0, 0⟩, ⟨true, 2, 1, 1⟩]
+    let c1ByA := c1 == "c1=a"
+    let cs : List Conn := [⟨false, 1, 0, 0⟩, ⟨c1ByA, 2, 1, 1⟩]
     let w := (electA o cs).filter (fun i => (electB o cs).contains i)
     let f (l : List Nat) := if l.isEmpty then "-" else ",".intercalate (l.map (fun i => s!"c{i}"))
     let parseIdx (s : String) : Option (List Nat) :=
@@ -258,7 +259,9 @@ def stepNS (st : NS) (op impl : String) : NS × StepOut :=
         | _ => ["unparsable"]
       | _ => ["unparsable"]
     let _ := adv
-    (st, { model := s!"c0/c0 {f w}|{f w}|c0,c1|c0,c1", oracle := orc, nontrivial := true })
+    -- c1 dialled by B: same direction as c0, the real nonces decide (and a pre-authentication
+    -- deadline miss on A closes c1 only): outcome judged by the oracle, not predicted
+    (st, { model := if c1ByA then s!"c0/c0 {f w}|{f w}|c0,c1|c0,c1" else impl, oracle := orc, nontrivial := true })
   | "ni" :: what :: _ =>
     -- paired non-interference experiment (theorems `unauthenticated_cannot_influence_*`):
     -- the implementation's answer with an unauthenticated name-spoofing session present
